@@ -158,7 +158,13 @@ class NameLookupRewriteVisitor(NodeTransformerBase):
 
     def visit_FunctionDef(self, node: ast.FunctionDef) -> ast.AST:
         self.scopes[-1].add(node.name)
-        return super().generic_visit(node)
+        # The parameters are local to the function; what is known
+        # outside of it is known inside, too
+        self.scopes.append(set(self.scopes[-1]))
+        try:
+            return super().generic_visit(node)
+        finally:
+            self.scopes.pop()
 
     def visit_alias(self, node: ast.alias) -> ast.AST:
         name = node.asname if node.asname is not None else node.name
@@ -166,7 +172,7 @@ class NameLookupRewriteVisitor(NodeTransformerBase):
         return super().generic_visit(node)
 
     def visit_Lambda(self, node: ast.Lambda) -> ast.AST:
-        self.scopes.append(set())
+        self.scopes.append(set(self.scopes[-1]))
         try:
             return super().generic_visit(node)
         finally:
